@@ -26,7 +26,7 @@ An interpreter for the bodies of widgets/list `List`, widgets/pager `Model` and 
     `vaxis.Characters(seg.Text)`, `d.lines`, `l.characters`: the elements are read when the loop
     starts;
   * `return List{items: y}` (the constructor `New`) is a fresh receiver with zero index and offset;
-  * `d.Layout()` is a call into the callee's interpreted body (fresh locals, shared fields and
+  * `d.Layout()` and `l.append(cell)` are calls into the callees' interpreted bodies (fresh locals, shared fields and
     lines; a callee's assignments to character-valued fields are not propagated — `Layout` has none).
 Anything outside the subset is `Err.stuck`, never a silent default.
 -/
@@ -215,12 +215,23 @@ def atom (R : Ro) (m : M) (l : GoSyn.Line) : Res :=
     | some iv, some item, some st =>
       ok { m with rows := if 0 ≤ iv ∧ iv < (R.H : Int) then m.rows ++ [⟨iv.toNat, item, st != 0⟩] else m.rows }
     | _, _, _ => .error (.stuck "Println")
+  -- `l.append(cell)`: a call into the body of `line.append` (receiver = the line `l` points to, parameter `v0` = the cell)
   | .exprS, .arg (.call (.var f)) (.var x), _ =>
     if f = m.lv ++ ".append" then
-      match lookupC m.χ x with
-      | some c => ok { m with cur := m.cur ++ [c], lines := m.alias.foldl (fun ls i => ls.set i (m.cur ++ [c])) m.lines }
-      | Option.none => .error (.stuck "append")
+      match lookupC m.χ x, R.call "line.append" with
+      | some c, some g =>
+        match g { m with ρ := [], χ := [("v0", c)], ls := [] } with
+        | .error e => .error e
+        | .ok (m', _) => ok { m' with ρ := m.ρ, χ := m.χ, ls := m.ls }
+      | Option.none, _ => .error (.stuck "append")
+      | _, Option.none => .error (.stuck "call line.append")
     else .error (.stuck "call")
+  -- inside `line.append`: `l.characters = append(l.characters, t)` on the receiver line (and every position of `d.lines`
+  -- holding the same object)
+  | .assign, .var "d.characters", .arg (.arg (.call (.var "append")) (.var "d.characters")) (.var y) =>
+    match lookupC m.χ y with
+    | some c => ok { m with cur := m.cur ++ [c], lines := m.alias.foldl (fun ls i => ls.set i (m.cur ++ [c])) m.lines }
+    | Option.none => .error (.stuck "append")
   | .assign, .var "d.lines", .lit "[]*line{}" => ok { m with lines := [], alias := [] }
   | .assign, .var "d.lines", .arg (.arg (.call (.var "append")) (.var "d.lines")) (.var x) =>
     if x = m.lv then ok { m with lines := m.lines ++ [m.cur], alias := m.alias ++ [m.lines.length] } else .error (.stuck "append to lines")
@@ -333,6 +344,7 @@ structure Bodies where
   pagerLayout : Stmt
   pagerScrollDown : Stmt
   pagerScrollUp : Stmt
+  lineAppend : Stmt
   barDraw : Stmt
 
 /-- A function of two `int` parameters (`min`, `max`): the value returned. -/
@@ -385,11 +397,18 @@ def pagerSt (text : List Ch) (m : M) : Option Pager.St :=
   | some o, some w => some { text := text, lines := m.lines, offset := o, width := w }
   | _, _ => Option.none
 
+/-- `line.append` as a callee. -/
+def appendCallee (B : Bodies) : M → Res :=
+  fun m => exec ⟨0, 0, [], noCall⟩ B.lineAppend 0 m
+
+def lineCalls (B : Bodies) : String → Option (M → Res) :=
+  fun n => if n = "line.append" then some (appendCallee B) else Option.none
+
 def layoutCallee (B : Bodies) (segs : List (List Ch)) : M → Res :=
-  fun m => exec ⟨0, 0, segs, noCall⟩ B.pagerLayout 0 m
+  fun m => exec ⟨0, 0, segs, lineCalls B⟩ B.pagerLayout 0 m
 
 def pagerRo (B : Bodies) (segs : List (List Ch)) (w h : Nat) : Ro :=
-  ⟨w, h, segs, fun n => if n = "d.Layout" then some (layoutCallee B segs) else Option.none⟩
+  ⟨w, h, segs, fun n => if n = "d.Layout" then some (layoutCallee B segs) else if n = "line.append" then some (appendCallee B) else Option.none⟩
 
 /-- A method of the pager (`Draw` with a `w × h` window, `Layout`, `ScrollDown`, `ScrollUp`) on the
     `Segments` whose characters are `segs`: the new state and the window. -/
